@@ -49,6 +49,10 @@ pub struct Violation {
     pub expected: String,
     pub actual: String,
     pub detail: String,
+    /// identity of the one enumerated case that failed; the driver stores it in the scenario's
+    /// `only` field so that minimisation and replay execute just that case
+    #[serde(default, skip_serializing_if = "Option::is_none")]
+    pub narrow: Option<String>,
 }
 
 impl Violation {
@@ -60,6 +64,7 @@ impl Violation {
             expected: expected.to_string(),
             actual: actual.to_string(),
             detail: detail.to_string(),
+            narrow: None,
         }
     }
     /// the violation *class* preserved during minimisation
@@ -213,6 +218,7 @@ pub struct ZervCall {
     pub stdin: Stdin,
     /// PATH override (default: the run's bin directory with the proxy as the only git)
     pub path: Option<String>,
+    pub rm_cwd: bool,
 }
 
 impl ZervCall {
@@ -225,6 +231,7 @@ impl ZervCall {
             unset: vec![],
             stdin: Stdin::Null,
             path: None,
+            rm_cwd: false,
         }
     }
     pub fn args_string(&self) -> String {
@@ -263,6 +270,8 @@ pub fn run_zerv(ctx: &Ctx, rd: &RunDir, call: &ZervCall, stats: &mut Stats) -> O
         env: env.into_iter().map(|(k, v)| (OsString::from(k), OsString::from(v))).collect(),
         cwd: call.cwd.clone(),
         stdin: call.stdin.clone(),
+        rm_cwd: call.rm_cwd,
+        mem_limit: Some(8 << 30),
     };
     stats.zerv_spawns += 1;
     proc::run(&spec)
